@@ -132,6 +132,35 @@ class Something:
 ''',
         "probes": [("Something", "x", [0, 1, 2]), ("Something", "y", [0])],
     },
+    # a three-level chain of constrained primitives declared DESCENDANT FIRST (the language admits any order of declarations);
+    # the middle one has no constraint of its own
+    "reversed_primitive_chain": {
+        "text": '''
+@invariant(lambda self: len(self) > 1, "slot1")
+class Derived_text(Middle_text):
+    pass
+
+
+class Middle_text(Base_text):
+    pass
+
+
+@invariant(lambda self: len(self) > 1, "slot0")
+class Base_text(str):
+    pass
+
+
+@invariant(lambda self: len(self.x) > 1, "slot2")
+class Something:
+    x: Derived_text
+    y: Middle_text
+
+    def __init__(self, x: Derived_text, y: Middle_text) -> None:
+        self.x = x
+        self.y = y
+''',
+        "probes": [("Something", "x", [0, 1, 2]), ("Something", "y", [0])],
+    },
     # invariants in UNRECOGNISED form which contain a length comparison: nothing may be inferred from them, whatever
     # the comparator and the constant are
     "unrecognised_a": {
@@ -363,7 +392,8 @@ def make_harness(params: Dict[str, Any]):
     return harness
 
 
-SLOTS = {"unrecognised_a": 3, "unrecognised_b": 3, "unrecognised_c": 3, "own2": 2, "own3": 3, "optional": 2, "list": 2, "chain": 3, "constrained_primitive": 3}
+SLOTS = {"unrecognised_a": 3, "unrecognised_b": 3, "unrecognised_c": 3, "own2": 2, "own3": 3, "optional": 2, "list": 2, "chain": 3, "constrained_primitive": 3,
+         "reversed_primitive_chain": 3}
 
 
 def shards(tier: str) -> List[Dict[str, Any]]:
@@ -373,7 +403,7 @@ def shards(tier: str) -> List[Dict[str, Any]]:
     for name, k in SLOTS.items():
         if k == 2:
             combos = [list(t) + [None] for t in itertools.product(range(6), repeat=2)]
-        elif tier == "quick" and name.startswith("unrecognised"):
+        elif tier == "quick" and (name.startswith("unrecognised") or name == "reversed_primitive_chain"):
             combos = [[0, 2, 4], [4, 0, 2], [2, 4, 0]]
         elif tier == "quick":
             combos = [list(t) for t in itertools.product((0, 2, 4), repeat=3)]  # <, ==, >=
